@@ -13,7 +13,7 @@
    [trace_of (run true pl cs)] is the list of effects on the device, the stream handle and the
    GenApi context, in order.  Every prefix of a session is a session, so a statement about
    "the trace / the final state of every session" is a statement about every reachable point. *)
-From Cam Require Import Outcome CameraProto Camera P_C16.
+From Cam Require Import Outcome CameraProto Camera P_C16 CamOps CameraSrc P_C16s.
 
 (* Ordering: in every session under every failure plan, each effect is admissible after the
    effects before it: AcquisitionStart only with the stream enabled and TLParamsLocked = 1,
@@ -405,3 +405,100 @@ Theorem C16_no_failure_no_error : forall pl cs c,
   end.
 Proof. exact no_failure_no_error. Qed.
 Print Assumptions C16_no_failure_no_error.
+
+(* ---- TIE TO THE SOURCE CODE: cameleon/src/camera.rs ------------------------------------------- *)
+(* gen/CameraSrc.v is regenerated on every run by tools/translate_camera.py from Camera::{params_ctxt, open,
+   load_context, start_streaming, stop_streaming, close}: every statement in source order, over the
+   operation vocabulary model/CamOps.v (self.ctrl.<m>()? / self.strm.<m>(..)? = one fallible operation, the
+   guards, expect_node!(&ctxt, NAME, as_X).set_value(&mut ctxt, v)? / .execute(&mut ctxt)? with the node name,
+   the interface and the literal taken from the source, channel(cap, DEFAULT_BUFFER_CAP), the assignment of the
+   context, clear_cache).  The translated methods ARE the model's methods, as functions of the failure plan
+   and the state ([cam_start true]: the code that exists; [cam_start false], the pinned code before d70bfb8,
+   lacks the `if self.ctxt.is_none()` guard and is not what the source says any more). *)
+Theorem C16_open_from_source : forall pl s, src_cam_open pl s = cam_open pl s.
+Proof. exact cam_open_src. Qed.
+Print Assumptions C16_open_from_source.
+
+Theorem C16_load_from_source : forall x pl s, src_cam_load x pl s = cam_load x pl s.
+Proof. exact cam_load_src. Qed.
+Print Assumptions C16_load_from_source.
+
+Theorem C16_start_from_source : forall cap pl s, src_cam_start cap pl s = cam_start true cap pl s.
+Proof. exact cam_start_src. Qed.
+Print Assumptions C16_start_from_source.
+
+Theorem C16_stop_from_source : forall pl s, src_cam_stop pl s = cam_stop pl s.
+Proof. exact cam_stop_src. Qed.
+Print Assumptions C16_stop_from_source.
+
+Theorem C16_close_from_source : forall pl s, src_cam_close pl s = cam_close pl s.
+Proof. exact cam_close_src. Qed.
+Print Assumptions C16_close_from_source.
+
+Theorem C16_params_ctxt_from_source : forall pl s, src_params_ctxt pl s = params_ctxt pl s.
+Proof. exact params_ctxt_src. Qed.
+Print Assumptions C16_params_ctxt_from_source.
+
+(* Hence a session executed with the TRANSLATED methods ([src_run]: open / load_context / start / stop / close
+   from gen/CameraSrc.v, the application's parameter accesses and the environment steps as in the model) is the
+   model's session, and every theorem above speaks about the translated code.  In particular the ordering:
+   every effect of every session of the translated code, under every failure plan, is admissible after the
+   effects before it. *)
+Theorem C16_run_from_source : forall pl cs, src_run pl cs = run true pl cs.
+Proof. exact src_run_eq. Qed.
+Print Assumptions C16_run_from_source.
+
+Theorem C16_order_of_source : forall pl cs, proto_ok (trace_of (src_run pl cs)).
+Proof. exact order_of_source. Qed.
+Print Assumptions C16_order_of_source.
+
+(* The device log of a translated start_streaming in which nothing fails, on a camera that is not streaming and
+   holds a conforming description: EnableStreaming, TLParamsLocked := 1 (then its mirror where declared; no
+   device access where TLParamsLocked is a host-side variable), AcquisitionStart, LoopStart -- exactly these, in
+   this order; and of a translated stop_streaming of a streaming camera: LoopStop first, AcquisitionStop,
+   TLParamsLocked := 0, DisableStreaming. *)
+Theorem C16_start_of_source : forall cap plc s c0,
+  loop_running s = false -> ctxt s = Some c0 -> n_tl c0 = true -> n_start c0 = true -> cap <> 0 ->
+  (forall j, plc j = None) ->
+  let r := src_run_call (CStart cap) plc s in
+  r_res r = Ok (-1) /\
+  r_atts r = EnableStreaming ::
+             match h_tl c0 with
+             | Some _ => []
+             | None => SetTLParamsLocked true :: (if n_copy c0 then [CopyTL true] else [])
+             end ++ [AcqStart; LoopStart] /\
+  filter is_access (r_effs r) = r_atts r /\
+  loop_running (r_cam r) = true.
+Proof. exact start_of_source. Qed.
+Print Assumptions C16_start_of_source.
+
+Theorem C16_stop_of_source : forall plc s c0,
+  loop_running s = true -> ctxt s = Some c0 -> n_tl c0 = true -> n_stop c0 = true ->
+  (forall j, plc j = None) ->
+  let r := src_run_call CStop plc s in
+  r_res r = Ok (-1) /\
+  r_atts r = [LoopStop; AcqStop] ++
+             match h_tl c0 with
+             | Some _ => []
+             | None => SetTLParamsLocked false :: (if n_copy c0 then [CopyTL false] else [])
+             end ++ [DisableStreaming] /\
+  filter is_access (r_effs r) = r_atts r /\
+  loop_running (r_cam r) = false.
+Proof. exact stop_of_source. Qed.
+Print Assumptions C16_stop_of_source.
+
+(* Non-vacuity (vm_compute): the intended session through the translated methods, a failing AcquisitionStart
+   write, the documented panic of start_streaming(0). *)
+Theorem C16_source_example :
+  let rs := src_run no_failure [COpen; CLoad xml_good; CStart 3; CParams; CStop; CClose] in
+  trace_of rs =
+    [CtrlOpen; StrmOpen; GenApiFetch; LoadCtxt true true true false false false;
+     EnableStreaming; SetTLParamsLocked true; AcqStart; LoopStart;
+     LoopStop; AcqStop; SetTLParamsLocked false; DisableStreaming;
+     CtrlClose; StrmClose; ClearCache] /\
+  map r_res rs = [Ok (-1); Ok (-1); Ok (-1); Ok 1; Ok (-1); Ok (-1)] /\
+  map r_res (src_run (plan_of [(2%nat, 2%nat, 1)]) [COpen; CLoad xml_good; CStart 3]) =
+    [Ok (-1); Ok (-1); Err (E_GENAPI_DEVICE + 1)] /\
+  map r_res (src_run no_failure [COpen; CLoad xml_good; CStart 0]) = [Ok (-1); Ok (-1); Panic].
+Proof. exact source_example. Qed.
+Print Assumptions C16_source_example.
